@@ -208,7 +208,7 @@ def run_c03(tier, t0):
                 saved = line.split()[1] == "saved"
                 flags[(tag, case)] = (saved, fl)
                 if not saved:
-                    if fl.get("wild") == "0" and fl.get("managedEdited") == "0" and fl.get("incomplete") == "0":
+                    if fl.get("wild") == "0" and fl.get("managedEdited") == "0" and fl.get("incomplete") == "0" and fl.get("offSpec") == "0":
                         viols.append(dict(prop="C03", key="save_threw", detail=line, case=case, log=os.path.join(out, "case_%d.log" % case), workload=R.workload))
                     continue
                 if fl.get("managedEdited") == "1" or fl.get("offSpec") == "1" or fl.get("wild") == "1" or fl.get("incomplete") == "1":
